@@ -128,6 +128,10 @@ class _Boom(Exception):
   pass
 
 
+class _BaseExit(BaseException):
+  pass
+
+
 def _boom():
   raise _Boom('evaluated although the caller supplied the parameter')
 
@@ -215,6 +219,22 @@ def check_case(case):
       except (ValueError, TypeError):
         pass
     labels.add('failed-scope-entry-before-calls')
+    # ... and a block left by something that is not an Exception (SystemExit, KeyboardInterrupt,
+    # GeneratorExit in a generator closed early) and handled further out leaves nothing behind either
+    try:
+      with gin.config_scope('zz/left'):
+        raise _BaseExit()
+    except _BaseExit:
+      pass
+
+    def _gen():
+      with gin.config_scope('zz/gen'):
+        yield 1
+    g = _gen()
+    next(g)
+    g.close()
+    require(gin.current_scope() == [], 'active-scope',
+            lambda: f'after blocks left by a BaseException / GeneratorExit: {gin.current_scope()}')
   captured = None
   if case.get('capture'):
     # a scope captured at a nested level (`with gin.config_scope(...) as s`) and entered again
